@@ -13,7 +13,9 @@ from vfw.runner import Stats, Violation, hyp_search
 PROPERTY = 'C10'
 LEVEL = 'exploration'
 RULE = ("enumeration: A in {stop, start, restart, reload (3 modes), incr, "
-        "decr, set, rm, add+start, reloadconfig, periodic check, incr with "
+        "decr, set, rm, add+start, reloadconfig (no file; file with a watcher "
+        "added / changed / removed / resized; [circus] changed), periodic "
+        "check, incr with "
         "ill-typed nb, restart with a failing hook / exec failure} x B in "
         "the exclusive commands x every progress point of A (m timer jumps, "
         "with and without running the loop first).  histories: random "
@@ -148,6 +150,9 @@ def execute(case):
             # written the operation has ended, the daemon must not go on
             # spawning or signalling on its own afterwards
             op = case["ops"][0]
+            if op[0] == 'cfg':
+                h.edit_config(op[1])
+                op = case["ops"][1]
             req = w.request(op[1], json.loads(json.dumps(op[2])))
             w.advance_until(lambda: req.answered, w.loop.time() + 60.0)
             if req.answered and not w.dead:
@@ -255,6 +260,21 @@ A_KINDS = {
     "restart-hook": ("restart", {"name": "wh", "match": "simple"}),
     "incr-exec-fails": ("incr", {"name": "w0", "nb": 2}),
     "incr-spawn-hook-false": ("incr", {"name": "ws", "nb": 1}),
+    # config-file worlds: the file is edited first, then re-read
+    "reloadconfig-added": ("reloadconfig", {}),
+    "reloadconfig-changed": ("reloadconfig", {}),
+    "reloadconfig-removed": ("reloadconfig", {}),
+    "reloadconfig-numprocesses": ("reloadconfig", {}),
+    "reloadconfig-circus": ("reloadconfig", {}),
+}
+CONFIG_EDITS = {
+    "reloadconfig-added": {"add": {"name": "n1", "numprocesses": 2,
+                                   "graceful_timeout": 0.3,
+                                   "warmup_delay": 1}},
+    "reloadconfig-changed": {"set": ["w0", "cmd", "other --wid $(circus.wid)"]},
+    "reloadconfig-removed": {"remove": "w0"},
+    "reloadconfig-numprocesses": {"set": ["w0", "numprocesses", 4]},
+    "reloadconfig-circus": {"circus": {"httpd_port": 8081}},
 }
 B_KINDS = {
     "stop": ("stop", {"name": "w0", "match": "simple"}),
@@ -288,11 +308,23 @@ def _base_watchers():
     ]
 
 
+def _config_watchers():
+    return [
+        {"name": "w0", "numprocesses": 2, "graceful_timeout": 0.3,
+         "warmup_delay": 1},
+        {"name": "w1", "numprocesses": 2, "graceful_timeout": 0.3,
+         "warmup_delay": 1, "autostart": False},
+        {"name": "w2", "numprocesses": 1, "graceful_timeout": 0.2},
+    ]
+
+
 def _enum_case(a, b, m, idle_first, stubborn):
     acmd, aprops = A_KINDS[a]
     bcmd, bprops = B_KINDS[b]
     aprops = dict(aprops, waiting=True)
     ops = [["req", acmd, aprops]]
+    if a in CONFIG_EDITS:
+        ops.insert(0, ["cfg", CONFIG_EDITS[a]])
     ops += [["next"]] * m
     if idle_first:
         ops.append(["idle"])
@@ -307,6 +339,9 @@ def _enum_case(a, b, m, idle_first, stubborn):
         # next exec fails and w0 gives up after one try
         tape = [dict(beh) for _ in range(6)] + [dict(beh, exec_fail=True)]
         watchers[0]["max_retry"] = 1
+    if a in CONFIG_EDITS:
+        return {"watchers": _config_watchers(), "default_beh": beh,
+                "tape": [], "ops": ops, "config": True}
     return {"watchers": watchers, "default_beh": beh, "tape": tape,
             "ops": ops}
 
@@ -314,7 +349,7 @@ def _enum_case(a, b, m, idle_first, stubborn):
 def _a_length(a, stubborn):
     """Number of timer jumps until A completes (fault-free probe run)."""
     c = _enum_case(a, "incr-unknown", 0, False, stubborn)
-    c["ops"] = c["ops"][:1]
+    c["ops"] = c["ops"][:2 if a in CONFIG_EDITS else 1]
     cc = dict(c)
     cc["watchers"] = list(c["watchers"]) + [dict(PROBE_WATCHER)]
     h = History(cc)
@@ -336,7 +371,7 @@ def _enumerate(spec, stats):
     found = {}
     for a, stubborn in spec["as"]:
         alone = _enum_case(a, "incr-unknown", 0, False, stubborn)
-        alone["ops"] = alone["ops"][:1]
+        alone["ops"] = alone["ops"][:2 if a in CONFIG_EDITS else 1]
         alone["alone"] = True
         v, nt, cl = execute(alone)
         stats.record(alone, True, cl)
@@ -373,7 +408,7 @@ def _strategy():
         requests=('incr', 'decr', 'set', 'restart', 'reload', 'stop',
                   'start'),
         hooks=True, exec_fail=True, rm=True, max_watchers=3, max_ops=20,
-        set_other=True)
+        set_other=True, config=True)
 
     @st.composite
     def case(draw):
